@@ -22,7 +22,8 @@ RULE = ("seeded call forests per dialect class; 3-8 live objects of different ki
         "dialects, plus 'used' graphs in which the original was rendered, hashed, asked for dynamic attributes and called "
         "through the delegating NOT wrapper before it is duplicated and the duplicate is continued (replace_table, as_, "
         "delegated calls, for_update(of=), groupby by alias ...). non-trivial = at least one duplicate of a builder/term was later used as receiver or argument; "
-        "distinct = program hash")
+        "distinct = program hash"
+        " also: objects used before duplication, zoo subjects, continuations on duplicate and original with the sibling vocabulary, deep duplicates own their tables. (DESIGN.md 6a)")
 ASSUMPTIONS = ["same observation function as C01 (six contexts x inline/parameterised, str, alias, is_aggregate, tables, fields)"]
 ANCHORS = ["QueryBuilder.__copy__", "PostgreSQLQueryBuilder.__copy__", "ignore_copy.<locals>._getattr", "builder.<locals>._copy"]
 WORKERS = {"quick": 16, "thorough": 16}
